@@ -210,6 +210,8 @@ def parse_bc(bc, lanes):
             else:
                 out.append((s, s))
     else:
+        if bc == "Default":
+            bc = "NotAKnot"     # C16: "the default NotAKnot spline"
         out = [(bc, bc)] * lanes
     return out
 
